@@ -726,7 +726,8 @@ func (c *Ctx) isSortedCopyFn(fn *ssa.Function) bool {
 	if len(rets) != 1 {
 		return false
 	}
-	fresh, ok := stripConv(rets[0].Results[0]).(*ssa.MakeSlice)
+	// (a copy captured by a sort.Slice closure lives in a cell: canon looks through it)
+	fresh, ok := stripConv(canon(rets[0].Results[0])).(*ssa.MakeSlice)
 	if !ok {
 		return false
 	}
@@ -737,11 +738,14 @@ func (c *Ctx) isSortedCopyFn(fn *ssa.Function) bool {
 		if !isCall {
 			return
 		}
-		if isBuiltin(call, "copy") && call.Call.Args[0] == ssa.Value(fresh) && call.Call.Args[1] == ssa.Value(fn.Params[0]) {
+		if isBuiltin(call, "copy") && canon(call.Call.Args[0]) == ssa.Value(fresh) && canon(call.Call.Args[1]) == ssa.Value(fn.Params[0]) {
 			copied = true
 		}
-		for _, nm := range []string{"Sort", "Stable", "Slice", "Float64s", "Ints"} {
-			if _, isS := isCallTo(call, "sort", nm); isS && len(call.Call.Args) > 0 && rootOf(stripConv(call.Call.Args[0])) == ssa.Value(fresh) {
+		for _, nm := range []string{"Sort", "Stable", "Slice", "SliceStable", "Float64s", "Ints"} {
+			if _, isS := isCallTo(call, "sort", nm); isS && len(call.Call.Args) > 0 && canon(rootOf(stripConv(canon(call.Call.Args[0])))) == ssa.Value(fresh) {
+				if (nm == "Slice" || nm == "SliceStable") && !strictIndexLess(call) {
+					continue // not `x[i] < x[j]`: the copy is not known to end up ascending
+				}
 				sorted = true
 				sortCall = in
 			}
@@ -1517,4 +1521,48 @@ func (c *Ctx) checkNoGlobalState(rule string, roots ...*ssa.Function) {
 		}
 	}
 	c.floor(rule, n, len(roots))
+}
+
+// strictIndexLess: the less function handed to sort.Slice(x, less) is a literal whose only return is
+// `x[i] < x[j]` (or `x[j] > x[i]`) for its two parameters i, j.
+func strictIndexLess(call *ssa.Call) bool {
+	if len(call.Call.Args) < 2 {
+		return false
+	}
+	var lit *ssa.Function
+	switch v := stripConv(call.Call.Args[1]).(type) {
+	case *ssa.MakeClosure:
+		lit, _ = v.Fn.(*ssa.Function)
+	case *ssa.Function:
+		lit = v
+	}
+	if lit == nil || lit.Blocks == nil || len(lit.Params) != 2 {
+		return false
+	}
+	rets := returnsOf(lit)
+	if len(rets) != 1 || len(rets[0].Results) != 1 {
+		return false
+	}
+	op, x, y, isCmp := cmpOf(rets[0].Results[0])
+	if !isCmp {
+		return false
+	}
+	idx := func(v ssa.Value) int {
+		ld, ok := stripConv(v).(*ssa.UnOp)
+		if !ok || ld.Op != token.MUL {
+			return -1
+		}
+		ia, ok := ld.X.(*ssa.IndexAddr)
+		if !ok {
+			return -1
+		}
+		for i, p := range lit.Params {
+			if canon(ia.Index) == ssa.Value(p) {
+				return i
+			}
+		}
+		return -1
+	}
+	xi, yi := idx(x), idx(y)
+	return (op == token.LSS && xi == 0 && yi == 1) || (op == token.GTR && xi == 1 && yi == 0)
 }
